@@ -625,6 +625,9 @@ class SoftFileLock:
                 pass
         if self.sim.locks.get(self.path) is me:
             self.sim.locks[self.path] = None
+        if getattr(self.sim, "yield_after_unlock", False):
+            # a process can be pre-empted right after it has released a lock, before its next statement
+            self.sim.point(lambda: [Action(me, "released", short(self.path))])
         return False
 
     acquire = __enter__
@@ -681,12 +684,13 @@ class patched:
         return False
 
 
-def simulate(fn, chooser, max_steps=20000, hang_window=400, fork_copy=False):
+def simulate(fn, chooser, max_steps=20000, hang_window=400, fork_copy=False, yield_after_unlock=False):
     """run `fn()` (which calls real toasty code) under the simulation; returns the Sim.  `fork_copy`: a started process works on
     its own deep copy of its arguments (queues, events and locks stay shared), as a forked process works on its own copy of the
     parent's memory — state that an object keeps between calls is then per process, as in real runs"""
     sim = Sim(chooser, max_steps=max_steps, hang_window=hang_window)
     sim.fork_copy = fork_copy
+    sim.yield_after_unlock = yield_after_unlock      # an extra scheduling point after every lock release
     with patched(sim):
         sim.run(fn)
     return sim
